@@ -24,7 +24,12 @@ ASSUMPTIONS = [
 TECHNIQUE = "Hypothesis-generated problem x configuration pairs; reference validity + differential between configurations"
 
 PROFILE = S.profile(min_tasks=1, max_tasks=4, p_resources=60, task_constraints=(0, 2), optional_rules=(0, 1), resource_constraints=(0, 1), buffers=(0, 1),
-                    indicators=(0, 1), objectives=(0, 2), p_optional=25, p_work_amount=15)
+                    indicators=(0, 2), objectives=(0, 2), p_optional=25, p_work_amount=15, indicator_constraints=30, optional_constraints=35, p_indicator_bounds=40)
+# objectives over user indicators carrying (possibly optional, hence void) IndicatorBounds / IndicatorTarget constraints and
+# documented bounds: the incremental optimiser's early exits against the built-in optimiser
+PROFILE_IND = S.profile(min_tasks=1, max_tasks=3, horizon=(3, 6), p_no_horizon=0, p_resources=30, task_constraints=(0, 1), optional_rules=(0, 0), resource_constraints=(0, 0),
+                        indicators=(1, 2), indicator_types=["FromMathExpression"], objectives=(1, 1), only_objectives=["MinimizeIndicator", "MaximizeIndicator"],
+                        indicator_constraints=70, optional_constraints=75, p_indicator_bounds=40, p_optional=15, p_release=10, p_due=10, p_work_amount=0)
 VALID_FAMILIES = ("T", "W", "TC", "RC", "OPT", "BUF", "FOL")
 
 
@@ -72,8 +77,8 @@ LOGICS = {"idl": ["QF_IDL", "QF_UFIDL", "QF_LIA", "QF_UFLIA", "QF_AUFLIA", "QF_A
 
 
 @st.composite
-def cases(draw):
-    spec = draw(S.specs(PROFILE))
+def cases(draw, prof=None):
+    spec = draw(S.specs(prof or PROFILE))
     lv = classify(spec)
     cfgs = []
     for _ in range(3):
@@ -102,6 +107,7 @@ def solve_cfg(spec, seed, kw):
     kw = dict(kw)
     rseed = kw.pop("_rseed", 0)
     random.seed(rseed)
+    kw.setdefault("max_time", 6)  # bounds z3's own timeout per check; a give-up is inconclusive, never a verdict
     h = B.build(spec, seed, solver_kwargs=kw)
     with env.collect_prints() as printed:
         sol = h.solver.solve()
@@ -211,8 +217,9 @@ def prop(ctx, case):
 
 
 def run_shard(ctx):
-    n = {"quick": 45, "thorough": 450}[ctx.tier]
+    n = {"quick": 35, "thorough": 400}[ctx.tier]
     run_hypothesis(ctx, cases(), prop, max_examples=n)
+    run_hypothesis(ctx, cases(PROFILE_IND), prop, max_examples=n)
 
 
 def replay(record):
